@@ -803,6 +803,13 @@ fn frag_twin() {
         if w.cut || w.twin_incomparable {
             return;
         }
+        // slow writes eat into the keep-alive: the slow run may lose a connection to a keep-alive
+        // timeout that the whole-write run keeps (one run in ten million) - then the two are two
+        // different histories
+        if base.nconns != twin.nconns {
+            w.probe("twin_slow_run_lost_a_connection");
+            return;
+        }
         if base.delivered != twin.delivered {
             w.violate("C15", "deliveries-differ/slow-writes".into(), format!("whole-write run delivered {} messages, run with slow partial writes {}", base.delivered.len(), twin.delivered.len()));
         }
